@@ -1,0 +1,82 @@
+//go:build verif
+// +build verif
+
+package rbtree
+
+import "sort"
+
+// VerifNode is a read-only image of one arena cell.
+type VerifNode struct {
+	Key, Value          uint32
+	Parent, Left, Right uint32
+	Color               bool
+}
+
+// VerifAllocatorSnapshot is a read-only image of an Allocator.
+type VerifAllocatorSnapshot struct {
+	StorageNil           bool
+	Storage              []VerifNode
+	Gaps                 []uint32 // sorted
+	GapsNil              bool
+	HibernatedStorageLen int
+	HibernatedGapsLen    int
+	HibernatedDataLens   [7]int
+	HibernatedDataNil    [7]bool
+	HibernationThreshold int
+}
+
+// VerifSnapshot copies the allocator state (no mutation).
+func (allocator *Allocator) VerifSnapshot() VerifAllocatorSnapshot {
+	s := VerifAllocatorSnapshot{
+		StorageNil:           allocator.storage == nil,
+		GapsNil:              allocator.gaps == nil,
+		HibernatedStorageLen: allocator.hibernatedStorageLen,
+		HibernatedGapsLen:    allocator.hibernatedGapsLen,
+		HibernationThreshold: allocator.HibernationThreshold,
+	}
+	for _, n := range allocator.storage {
+		s.Storage = append(s.Storage, VerifNode{
+			Key: n.item.Key, Value: n.item.Value, Parent: n.parent, Left: n.left, Right: n.right, Color: n.color})
+	}
+	for k := range allocator.gaps {
+		s.Gaps = append(s.Gaps, k)
+	}
+	sort.Slice(s.Gaps, func(i, j int) bool { return s.Gaps[i] < s.Gaps[j] })
+	for i, d := range allocator.hibernatedData {
+		s.HibernatedDataLens[i] = len(d)
+		s.HibernatedDataNil[i] = d == nil
+	}
+	return s
+}
+
+// VerifHibernatedData returns a copy of the compressed buffers.
+func (allocator *Allocator) VerifHibernatedData() [7][]byte {
+	var r [7][]byte
+	for i, d := range allocator.hibernatedData {
+		if d != nil {
+			r[i] = append([]byte{}, d...)
+		}
+	}
+	return r
+}
+
+// VerifTreeHeader is a read-only image of the RBTree struct.
+type VerifTreeHeader struct {
+	Root, MinNode, MaxNode uint32
+	Count                  int32
+}
+
+// VerifHeader returns the tree header.
+func (tree *RBTree) VerifHeader() VerifTreeHeader {
+	return VerifTreeHeader{Root: tree.root, MinNode: tree.minNode, MaxNode: tree.maxNode, Count: tree.count}
+}
+
+// VerifNode returns the arena index the iterator points at.
+func (iter Iterator) VerifNode() uint32 {
+	return iter.node
+}
+
+// VerifIterator builds an iterator for an arena index.
+func (tree *RBTree) VerifIterator(node uint32) Iterator {
+	return Iterator{tree, node}
+}
